@@ -74,16 +74,18 @@ BumpCnt(c, k) == [c EXCEPT !.total = @ + 1, ![k] = @ + 1]
 (* and the meta.* fields set in sendTraces / dealWithSentTrace /           *)
 (* ProcessSpanImmediately.                                                 *)
 (***************************************************************************)
+\* counts decorating a root span; 0 = not set (a present count of zero is indistinguishable downstream)
+NoCnt == [sc |-> 0, ec |-> 0, lc |-> 0, tc |-> 0]
 RootCounts(c, sp, cnt) ==
-  IF ~sp.root THEN [sc |-> -1, ec |-> -1, lc |-> -1, tc |-> -1]
+  IF ~sp.root THEN NoCnt
   ELSE IF c.addCounts THEN [sc |-> cnt.span, ec |-> cnt.event, lc |-> cnt.link, tc |-> cnt.total]
-  ELSE IF c.addSpanCount THEN [sc |-> cnt.total, ec |-> -1, lc |-> -1, tc |-> -1]
-  ELSE [sc |-> -1, ec |-> -1, lc |-> -1, tc |-> -1]
+  ELSE IF c.addSpanCount THEN [sc |-> cnt.total, ec |-> 0, lc |-> 0, tc |-> 0]
+  ELSE NoCnt
 
 \* a span forwarded with a trace rate `rate` (merge applied)
 Merged(c, t, sp, rate, keep, reason, sreason, cnt, stressed) ==
   LET cr == Max(sp.crate, 1) IN
-  [ t |-> t, id |-> sp.id,
+  [ t |-> t, id |-> sp.id, crate |-> sp.crate,     \* crate: what the client sent (ghost; the harness knows it)
     rate   |-> IF c.dryRun THEN cr ELSE cr * rate,
     final  |-> IF c.dryRun THEN 0 ELSE cr * rate,
     orig   |-> sp.crate,
@@ -98,12 +100,12 @@ Merged(c, t, sp, rate, keep, reason, sreason, cnt, stressed) ==
 
 \* a late span of a would-be-dropped trace forwarded under dry run: no merge at all
 DryLateDropped(c, t, sp, reason) ==
-  [ t |-> t, id |-> sp.id, rate |-> Max(sp.crate, 1), final |-> 0, orig |-> 0,
+  [ t |-> t, id |-> sp.id, crate |-> sp.crate, rate |-> Max(sp.crate, 1), final |-> 0, orig |-> 0,
     dry |-> "false", dryrate |-> 0,
     reason |-> IF c.addReason THEN reason ELSE "",
     sreason |-> IF c.addReason THEN "trace_send_late_span" ELSE "",
     stressed |-> FALSE, attrs |-> c.attrs, host |-> c.addHost,
-    cnt |-> [sc |-> -1, ec |-> -1, lc |-> -1, tc |-> -1] ]
+    cnt |-> NoCnt ]
 
 LateReason(r) == IF r = "" THEN "late arriving span" ELSE r \o " - late arriving span"
 
@@ -269,7 +271,7 @@ StressSpan(t, shape, sv) ==
   /\ dec' = [dec EXCEPT ![t] = IF known THEN [dec[t] EXCEPT !.cnt = cnt1]
                                 ELSE [known |-> TRUE, keep |-> sv.keep, rate |-> sv.rate, reason |-> "stress_relief", cnt |-> ZeroCnt]]
   /\ IF keep
-     THEN /\ fwd' = fwd \cup {[Merged(cfg, t, sp, rate, TRUE, reason, "", ZeroCnt, TRUE) EXCEPT !.cnt = [sc |-> -1, ec |-> -1, lc |-> -1, tc |-> -1]]}
+     THEN /\ fwd' = fwd \cup {[Merged(cfg, t, sp, rate, TRUE, reason, "", ZeroCnt, TRUE) EXCEPT !.cnt = NoCnt]}
           /\ ndrop' = ndrop
      ELSE /\ fwd' = fwd
           /\ ndrop' = [ndrop EXCEPT ![t] = @ + 1]
@@ -359,7 +361,6 @@ BacklogOrder ==
 SendReasonRule ==
   \A r \in fwd :
     LET same == {y \in fwd : y.t = r.t /\ y.sreason = r.sreason} IN
-    /\ (r.sreason = "trace_send_got_root" => \E y \in same : y.cnt.sc # -1 \/ ~(cfg.addCounts \/ cfg.addSpanCount) \/ TRUE)
     /\ (r.sreason = "trace_send_span_limit" => SpanLimit > 0 /\ Cardinality(same) > SpanLimit)
 
 \* C04: forwarded sample rates compose
@@ -367,15 +368,17 @@ RatesCompose ==
   \A r \in fwd :
     /\ r.rate >= 1
     /\ (r.final # 0 => r.final = r.rate)
-    /\ (~(r.dry # "") /\ ~r.stressed /\ IsDec(r.t) /\ dec[r.t].keep) =>
-          (r.final = r.rate /\ r.rate = Max(r.orig, 1) * dec[r.t].rate)
+    /\ (r.orig # 0 => r.orig = r.crate)
+    /\ (r.dry = "" => r.orig = r.crate /\ r.final = r.rate)
+    /\ (r.dry = "" /\ ~r.stressed /\ IsDec(r.t) /\ dec[r.t].keep) => r.rate = Max(r.crate, 1) * dec[r.t].rate
+    /\ (r.dry = "" /\ r.stressed) => \E k \in 1 .. 1000 : r.rate = Max(r.crate, 1) * k
 
 \* C05: under dry run every processed span is forwarded with the would-be decision
 DryRunForwardsAll ==
   (\A c \in Cfgs \cup {InitCfg} : c.dryRun) /\ StressRates = {} =>
     \A t \in Traces :
       /\ ndrop[t] = 0
-      /\ \A r \in FwdOf(t) : r.dry = (IF dec[t].keep THEN "true" ELSE "false") /\ r.rate = Max(r.orig, 1)
+      /\ \A r \in FwdOf(t) : r.dry = (IF dec[t].keep THEN "true" ELSE "false") /\ r.rate = Max(r.crate, 1)
 
 \* C07: ejected traces are decided like any other and leave the buffer
 EjectDecides ==
